@@ -3,7 +3,7 @@
    The model is Html/Model.v (all of /repo/html/lex.go and ToHash over the generated table); [run c n l] is a
    caller that calls Next n times whatever it returns; [cfg_ok c] says the two template delimiters contain no
    NUL byte (c = no_tmpl: NewLexer; the six predefined pairs satisfy it, cfg_ok_predefined). *)
-From Verif Require Import Common.Base Common.Lx Gen.Tables Html.Model Html.ListLemmas Html.Safety Html.Step Html.Spec Html.RawText Html.Proofs Html.Template.
+From Verif Require Import Common.Base Common.Lx Gen.Tables Html.Model Html.ListLemmas Html.Safety Html.Step Html.Spec Html.RawText Html.Proofs Html.Template Html.Wf Html.WfDoc.
 
 (* C01 — no panic, no endless loop: n calls of Next succeed on every byte string, with or without template
    delimiters, whatever the caller does after an error. *)
@@ -163,3 +163,28 @@ Theorem html_template_atomic_rawtext_partial :
     exists v l', next c l = Ok (TextT, Some v, l') /\ lhas l' = true /\ so v = p /\ q <= so v + sn v.
 Proof. exact html_template_rawtext_proof. Qed.
 Print Assumptions html_template_atomic_rawtext_partial.
+
+(* C09 — well-formed documents (partial): for every document assembled from the constructs of the grammar
+   WfDoc.item (text without '<'; comments; CDATA; doctype in any ASCII case; start tags of ordinary elements with
+   valueless / unquoted / single- / double-quoted attributes and any permitted whitespace, closed by '>' or '/>';
+   end tags) the lexer, without template delimiters, returns exactly one token per construct (one per tag part),
+   with the right type, the bytes of the construct, lower-cased Text()/AttrKey() and verbatim AttrVal(), followed
+   by the end-of-input report.  [observe] reads type, token bytes, Text() and (for attributes) AttrVal() right after
+   each call.
+   NOT covered by this theorem (correspondence + Go oracle only): raw-text elements and svg/math/xml as constructs
+   of the grammar (see html_rawtext_never_markup for raw text), bogus comments, text containing a '<' that opens
+   nothing, names containing '/', template delimiters. *)
+Theorem html_wellformed_tokens_partial :
+  forall items, wf_doc items ->
+    exists tr, run no_tmpl (length (doc_obs items) + 1) (new_lexer (doc_bytes items)) = Ok tr /\
+               map observe tr = doc_obs items ++ [mkObs ErrorT [] [] []].
+Proof. exact html_wellformed_tokens_proof. Qed.
+Print Assumptions html_wellformed_tokens_partial.
+
+(* C09 refuted (found while modelling) — "any permitted whitespace ... lower-cased Text()": a form feed before the
+   '>' of an end tag stays in Text(). *)
+Theorem html_endtag_formfeed_refuted :
+  exists v t l', next no_tmpl (new_lexer [60; 47; 97; 12; 62]) = Ok (EndTagT, Some v, l') /\ ltext l' = Some t /\
+    view_bytes (lbuf (lz l')) t = [97; 12] /\ is_ws 12 = true.
+Proof. exact html_endtag_formfeed_refuted_proof. Qed.
+Print Assumptions html_endtag_formfeed_refuted.
